@@ -37,3 +37,14 @@ let () =
   Registry.register "lex" (fun a ->
       let data = bytes_of_hex (Stdlib.List.nth a 0) in
       render_scan (scan (ask "schema") (ask "enum") data))
+
+let () =
+  Registry.register "trace" (fun a ->
+      let data = bytes_of_hex (Stdlib.List.nth a 0) in
+      Stdlib.String.concat "," (Stdlib.List.map (fun (p, st) -> Printf.sprintf "%d:%d" (int_of_n p) (int_of_n (state_idx st)))
+                                  (scan_trace (ask "schema") (ask "enum") data)));
+  (* the first (state, byte) of the regenerated table that fails the typing checks, or "none" *)
+  Registry.register "findbad" (fun _ ->
+      match find_bad gen_typing with
+      | None -> if table_ok gen_typing then "none" else "none-but-table-not-ok"
+      | Some ((st, c), _) -> Printf.sprintf "%d %d %s" (int_of_n (state_idx st)) (int_of_n c) (string_of_coq (state_name st)))
